@@ -759,6 +759,23 @@ def run_case(key, tier, res):
     def viol(mech, summary, **w):
         res.violation(mech, summary, {**wbase, "history": done, **w})
 
+    # ---- edits BEFORE the clone (history of the original): an action-cost metric followed by an edit of one of its actions
+    # (the metric must still know the action), or a random prefix of the operation list
+    pre_ops = []
+    if rng.random() < 0.45:
+        mets = [o for o in ops if o["op"] == "metric" and o.get("costs")]
+        if mets and rng.random() < 0.6:
+            m = mets[0]
+            effs = [o for o in ops if o["op"] == "action_effect" and o.get("action") in m["costs"]]
+            pre_ops = [m] + effs[:1]
+            res.count("preclone:metric-then-action-edit" if effs else "preclone:metric")
+        else:
+            pre_ops = ops[: rng.choice([1, 2, 3, 5])]
+            res.count("preclone:random-prefix")
+        ops = [o for o in ops if not any(o is q for q in pre_ops)]
+        side0 = Side(b, P)
+        for op in pre_ops:
+            done.append({**op, "outcome": {"before-clone": side0.apply(op)}})
     # ---- clone ------------------------------------------------------------------------------------------------------
     before = canon(P)
     res.mon()
